@@ -65,6 +65,16 @@ def search(S):
             w, wd, Mb = out_m[2].flatten(), out_m[3].flatten(), out_m[4].flatten()
             J = np.array([[bezier.J_xx, 0, bezier.J_xz], [0, bezier.J_yy, 0], [bezier.J_xz, 0, bezier.J_zz]])
             S.check("mr_ref_traj", "euler_equation", inp, H.close(Mb, J @ wd + np.cross(w, J @ w), 1e-8, scale=max(1.0, np.max(np.abs(Mb)))), None, Mb.tolist(), "M_b != J wdot + w x J w")
+            # the parametric variant with a general (symmetric) inertia and mass: non-zero product of inertia J_xz
+            mm, gg = float(rng.uniform(0.5, 4)), float(rng.uniform(5, 12))
+            Jg = np.diag(rng.uniform(0.01, 0.1, 3)); Jg[0, 2] = Jg[2, 0] = float(rng.uniform(-0.004, 0.004))
+            og = [np.array(o) for o in mref(psi, dpsi, ddpsi, v, a, j, s, mm, gg, Jg[0, 0], Jg[1, 1], Jg[2, 2], Jg[0, 2])]
+            thg = mm * (np.array([0, 0, gg]) - a)
+            if np.linalg.norm(thg) > 1e-2 and np.linalg.norm(np.cross(thg / np.linalg.norm(thg), xC)) > 1e-2:
+                wg, wdg, Mg, Cg = og[2].flatten(), og[3].flatten(), og[4].flatten(), og[1]
+                inpg = dict(inp, m=mm, g=gg, J=Jg.tolist())
+                S.check("mr_ref_traj", "euler_equation_general_inertia", inpg, H.close(Mg, Jg @ wdg + np.cross(wg, Jg @ wg), 1e-8, scale=max(1.0, float(np.max(np.abs(Mg))))), (Jg @ wdg + np.cross(wg, Jg @ wg)).tolist(), Mg.tolist(), "M_b != J wdot + w x J w with a non-zero product of inertia")
+                S.check("mr_ref_traj", "thrust_axis_general", inpg, H.close(Cg[:, 2], thg / np.linalg.norm(thg), 1e-8) and abs(float(og[5]) - np.linalg.norm(thg)) < 1e-8 * np.linalg.norm(thg), None, Cg[:, 2].tolist(), "body z / thrust magnitude wrong for general mass and gravity")
             # p, q are the rotation rate of the thrust axis along a(t) = a + j t  (finite differences, independent)
             h = 1e-6
             def zb(t):
